@@ -1,5 +1,7 @@
 import ZenonVerif.Model.GoSem
 import ZenonVerif.Model.Num
+import ZenonVerif.Model.Rewards
+import ZenonVerif.Model.Consensus
 /-
 Lemmas about the Go semantics module (Model/GoSem.lean) used by Props/Translated.lean. Core only.
 -/
@@ -59,5 +61,32 @@ theorem zero8_eq : zero8 = leBytes 8 0 := by decide
 
 theorem toInt_eq (v : BitVec 64) : v.toInt = if v.toNat < 2 ^ 63 then (v.toNat : Int) else (v.toNat : Int) - 2 ^ 64 := by
   rw [BitVec.toInt_eq_toNat_cond]; split <;> split <;> omega
+
+theorem tdiv_nat (n d : Nat) : Int.tdiv (n : Int) (d : Int) = ((n / d : Nat) : Int) := (Int.ofNat_tdiv n d).symm
+
+theorem toInt_sub_wrap (a b : BitVec 64) : (a - b).toInt = Rewards.wrap64 (a.toInt - b.toInt) := by
+  rw [BitVec.toInt_sub, Int.bmod_def]; unfold Rewards.wrap64; simp only [two63, two64]; split <;> omega
+
+theorem toInt_mul_wrap (a b : BitVec 64) : (a * b).toInt = Rewards.mul64 a.toInt b.toInt := by
+  rw [BitVec.toInt_mul, Int.bmod_def]; unfold Rewards.mul64 Rewards.wrap64; simp only [two63, two64]
+  generalize a.toInt * b.toInt = p
+  split <;> omega
+
+theorem bmod_wrap (x : Int) : x.bmod (2 ^ 64) = Rewards.wrap64 x := by
+  rw [Int.bmod_def]; unfold Rewards.wrap64; simp only [two63, two64]; split <;> omega
+theorem toInt_add_wrap (a b : BitVec 64) : (a + b).toInt = Rewards.wrap64 (a.toInt + b.toInt) := by
+  rw [BitVec.toInt_add, bmod_wrap]
+theorem toInt_sdiv_wrap (a b : BitVec 64) : (BitVec.sdiv a b).toInt = Rewards.wrap64 (Int.tdiv a.toInt b.toInt) := by
+  rw [BitVec.toInt_sdiv, bmod_wrap]
+theorem consensus_wrap64_eq (x : Int) : Consensus.wrap64 x = Rewards.wrap64 x := by
+  unfold Consensus.wrap64 Consensus.toInt64 Rewards.wrap64; simp only [Consensus.two64i, two63, two64]
+  by_cases h : (x % 18446744073709551616).toNat % 18446744073709551616 < 9223372036854775808 <;> simp only [h, if_true, if_false] <;> omega
+theorem toInt64_toNat (v : BitVec 64) : Consensus.toInt64 v.toNat = v.toInt := by
+  have := v.isLt
+  unfold Consensus.toInt64; rw [toInt_eq]; simp only [Consensus.two64i, two63, two64]
+  by_cases h : v.toNat % 18446744073709551616 < 9223372036854775808 <;> by_cases h2 : v.toNat < 2 ^ 63 <;> simp only [h, h2, if_true, if_false] <;> omega
+theorem toInt_zext32 (v : BitVec 32) : (BitVec.setWidth 64 v).toInt = (v.toNat : Int) := by
+  have := v.isLt
+  rw [toInt_eq]; simp only [BitVec.toNat_setWidth]; split <;> omega
 
 end ZV.Go
